@@ -45,13 +45,6 @@ Qed.
 Lemma Qred_integer_conv : forall c z, c == inject_Z z -> Qred c = inject_Z z.
 Proof. intros c z H. rewrite <- Qred_inject_Z. apply Qred_complete. assumption. Qed.
 
-Lemma rat_value_is_integer_spec : forall x z, wfr x = true -> qval x == inject_Z z ->
-  rat_value_is_integer x = true.
-Proof.
-  intros x z Hx E. unfold rat_value_is_integer. rewrite (qlit_of x (inject_Z z)) by assumption.
-  rewrite Qred_inject_Z. reflexivity.
-Qed.
-
 Lemma cq_of : forall z a b, wfc z = true -> cre z == a -> cim z == b -> cq z = CV (Qred a) (Qred b).
 Proof.
   intros z a b Hz Ea Eb. apply wfc_iff in Hz. destruct Hz as [Hr Hi].
@@ -65,10 +58,9 @@ Proof.
 Qed.
 
 (* ------------------------------------------------------------------ *)
-(* Complex::pow on (real)^(integer), outside the unreduced-exponent class *)
-
+(* Complex::pow on (real)^(integer) *)
 Lemma cx_pow_spec : forall oc a ex z, wfc a = true -> wfc ex = true ->
-  cim a == 0 -> cim ex == 0 -> cre ex == inject_Z z -> pow_unreduced oc a ex = false ->
+  cim a == 0 -> cim ex == 0 -> cre ex == inject_Z z ->
   match cx_pow oc a ex with
   | Ok (r, fl) => fl = true /\ wfc r = true /\ cre r == Qpower (cre a) z /\ cim r == 0 /\
                   ~ (cre a == 0 /\ (z <= 0)%Z)
@@ -78,7 +70,7 @@ Lemma cx_pow_spec : forall oc a ex z, wfc a = true -> wfc ex = true ->
   | _ => False
   end.
 Proof.
-  intros oc a ex z Ha Hex Ia Iex Rex Hk.
+  intros oc a ex z Ha Hex Ia Iex Rex.
   pose proof Ha as Ha'. pose proof Hex as Hex'. apply wfc_iff in Ha'. apply wfc_iff in Hex'.
   destruct Ha' as [Har Hai]. destruct Hex' as [Her Hei].
   assert (Za : real_is_zero oc (im a) = Ok true).
@@ -86,35 +78,26 @@ Proof.
   assert (Zb : real_is_zero oc (im ex) = Ok true).
   { rewrite real_is_zero_spec by assumption. f_equal. apply Qeq_bool_iff. exact Iex. }
   pose proof (real_pow_spec oc (re a) (re ex) z Har Her Rex) as P.
-  assert (Hres : forall (wrap : bigrat -> complex), (forall r, im (wrap r) = rat_of_u64 0) -> (forall r, re (wrap r) = r) ->
-    match (do r <- real_pow oc (re a) (re ex); Ok (wrap (fst r), snd r)) with
-    | Ok (r, fl) => fl = true /\ wfc r = true /\ cre r == Qpower (cre a) z /\ cim r == 0 /\
-                    ~ (cre a == 0 /\ (z <= 0)%Z)
-    | Err EZeroPowZero => cre a == 0 /\ z = 0%Z
-    | Err EDivByZero => cre a == 0 /\ (z < 0)%Z
-    | Err EExpTooLarge => (Z.of_N W <= Z.abs z)%Z
-    | _ => False
-    end).
-  { intros wrap Wi Wr. destruct (real_pow oc (re a) (re ex)) as [[r fl]|[]|]; cbn [bind fst snd]; try exact P.
-    destruct P as (Fl & Wf & Vr & Nz). split; [assumption|].
-    split; [apply wfc_iff; rewrite Wi, Wr; auto using wfr_0|].
-    unfold cre, cim. rewrite Wi, Wr. split; [assumption|]. split; [reflexivity|assumption]. }
-  unfold cx_pow. rewrite Za, Zb. cbn [bind andb].
-  destruct (negb (rat_is_integer (re ex)) || negb (rat_is_integer (im ex))) eqn:NI.
-  - (* frac_pow: only reached with a non-negative base outside the class *)
-    rewrite real_is_neg_spec by assumption. cbn [bind].
-    unfold pow_unreduced in Hk. rewrite Za, Zb, real_is_neg_spec in Hk by assumption.
-    destruct (qval (re a) ?= 0) eqn:Cmp; cbn [negb].
-    + apply (Hres cx_of_real); reflexivity.
-    + exfalso. rewrite (rat_value_is_integer_spec (re ex) z Her Rex) in Hk. cbn [andb] in Hk.
-      rewrite <- negb_andb in NI. rewrite NI in Hk. discriminate.
-    + apply (Hres cx_of_real); reflexivity.
-  - apply (Hres (fun r => mkcx r (rat_of_u64 0))); reflexivity.
+  unfold cx_pow, cx_pow_gen.
+  rewrite (rat_is_integer_spec oc (re ex) z Her Rex).
+  rewrite (rat_is_integer_spec oc (im ex) 0 Hei Iex). cbn [negb orb].
+  rewrite Za, Zb. cbn [bind andb].
+  destruct (real_pow oc (re a) (re ex)) as [[r fl]|[]|]; cbn [bind fst snd]; try exact P.
+  destruct P as (Fl & Wf & Vr & Nz). split; [assumption|].
+  split; [apply wfc_iff; cbn [re im]; auto using wfr_0|].
+  unfold cre, cim. cbn [re im]. split; [assumption|]. split; [reflexivity|assumption].
 Qed.
+
+(* the code before 19d36f9 left exact arithmetic on (-8)^(6/2) *)
+Lemma cx_pow_old_refuted_witness :
+  let base := cx_of_real (mkrat Negative (Small 8) (Small 1)) in
+  let expo := cx_of_real (mkrat Positive (Small 6) (Small 2)) in
+  wfc base = true /\ wfc expo = true /\ cx_pow_old true base expo = Err EOther /\
+  cx_pow true base expo = Ok (cx_of_real (mkrat Negative (Small 512) (Small 1)), true).
+Proof. vm_compute. auto. Qed.
 
 Lemma v_pow_spec : forall oc x y z, wfc x = true -> wfc y = true ->
   cim x == 0 -> cim y == 0 -> cre y == inject_Z z ->
-  (forall ex, v_into_unitless_complex oc (y, true) = Ok ex -> pow_unreduced oc x ex = false) ->
   match v_pow oc (x, true) (y, true) with
   | Ok (r, fl) => fl = true /\ wfc r = true /\ cre r == Qpower (cre x) z /\ cim r == 0 /\
                   ~ (cre x == 0 /\ (z <= 0)%Z)
@@ -124,12 +107,11 @@ Lemma v_pow_spec : forall oc x y z, wfc x = true -> wfc y = true ->
   | _ => False
   end.
 Proof.
-  intros oc x y z Hx Hy Ix Iy Ry Hk. unfold v_pow.
+  intros oc x y z Hx Hy Ix Iy Ry. unfold v_pow.
   destruct (v_into_unitless_complex_spec oc y Hy) as (ex & Ee & We & Er & Ei). rewrite Ee. cbn [bind fst snd].
-  specialize (Hk ex Ee).
   assert (Iex : cim ex == 0) by (rewrite Ei; assumption).
   assert (Rex : cre ex == inject_Z z) by (rewrite Er; assumption).
-  pose proof (cx_pow_spec oc x ex z Hx We Ix Iex Rex Hk) as P.
+  pose proof (cx_pow_spec oc x ex z Hx We Ix Iex Rex) as P.
   destruct (cx_pow oc x ex) as [[r fl]|[]|]; cbn [bind fst snd andb]; exact P.
 Qed.
 
@@ -234,20 +216,19 @@ Section Main.
     split; [assumption|]. split; [assumption|]. rewrite Hc, Cz. assumption.
   Qed.
 
-  Theorem exact_except_known : forall e, wf_lits e = true -> cval e <> COutside ->
-    known_C01 oc e = false -> good oc e.
+  Theorem exact : forall e, wf_lits e = true -> cval e <> COutside -> good oc e.
   Proof.
     induction e as [r| |a IHa b IHb|a IHa b IHb|a IHa b IHb|a IHa b IHb|a IHa|a IHa b IHb|a IHa|a IHa|a IHa];
-      intros Hwf Hout Hk; cbn [wf_lits known_C01] in Hwf, Hk.
+      intros Hwf Hout; cbn [wf_lits] in Hwf.
     - (* literal *)
       unfold good. cbn [meval]. split; [reflexivity|].
       split; [apply wfc_iff; cbn [cx_of_real re im]; auto using wfr_0|]. reflexivity.
     - (* i *)
       unfold good. cbn [meval]. split; [reflexivity|]. split; reflexivity.
     - (* add *)
-      apply andb_true_iff in Hwf. destruct Hwf as [Wa Wb]. apply orb_false_iff in Hk. destruct Hk as [Ka Kb].
+      apply andb_true_iff in Hwf. destruct Hwf as [Wa Wb].
       cbn [cval] in Hout. destruct (bind2_not_outside _ _ _ Hout) as [Oa Ob].
-      specialize (IHa Wa Oa Ka). specialize (IHb Wb Ob Kb).
+      specialize (IHa Wa Oa). specialize (IHb Wb Ob).
       unfold good in *. cbn [meval cval exists_sub].
       destruct (meval oc a) as [[za fa]|[]|]; cbn [bind]; try contradiction; auto.
       destruct (meval oc b) as [[zb fb]|[]|]; cbn [bind]; try contradiction; auto.
@@ -255,9 +236,9 @@ Section Main.
       destruct (v_add_spec oc za zb Wza Wzb) as (r & Er & Wr & Rr & Ri). rewrite Er.
       split; [reflexivity|]. split; [assumption|]. rewrite Ca, Cb. apply cq_add; assumption.
     - (* sub *)
-      apply andb_true_iff in Hwf. destruct Hwf as [Wa Wb]. apply orb_false_iff in Hk. destruct Hk as [Ka Kb].
+      apply andb_true_iff in Hwf. destruct Hwf as [Wa Wb].
       cbn [cval] in Hout. destruct (bind2_not_outside _ _ _ Hout) as [Oa Ob].
-      specialize (IHa Wa Oa Ka). specialize (IHb Wb Ob Kb).
+      specialize (IHa Wa Oa). specialize (IHb Wb Ob).
       unfold good in *. cbn [meval cval exists_sub].
       destruct (meval oc a) as [[za fa]|[]|]; cbn [bind]; try contradiction; auto.
       destruct (meval oc b) as [[zb fb]|[]|]; cbn [bind]; try contradiction; auto.
@@ -265,9 +246,9 @@ Section Main.
       destruct (v_sub_spec oc za zb Wza Wzb) as (r & Er & Wr & Rr & Ri). rewrite Er.
       split; [reflexivity|]. split; [assumption|]. rewrite Ca, Cb. apply cq_sub; assumption.
     - (* mul *)
-      apply andb_true_iff in Hwf. destruct Hwf as [Wa Wb]. apply orb_false_iff in Hk. destruct Hk as [Ka Kb].
+      apply andb_true_iff in Hwf. destruct Hwf as [Wa Wb].
       cbn [cval] in Hout. destruct (bind2_not_outside _ _ _ Hout) as [Oa Ob].
-      specialize (IHa Wa Oa Ka). specialize (IHb Wb Ob Kb).
+      specialize (IHa Wa Oa). specialize (IHb Wb Ob).
       unfold good in *. cbn [meval cval exists_sub].
       destruct (meval oc a) as [[za fa]|[]|]; cbn [bind]; try contradiction; auto.
       destruct (meval oc b) as [[zb fb]|[]|]; cbn [bind]; try contradiction; auto.
@@ -275,9 +256,9 @@ Section Main.
       destruct (v_mul_spec oc za zb Wza Wzb) as (r & Er & Wr & Rr & Ri). rewrite Er.
       split; [reflexivity|]. split; [assumption|]. rewrite Ca, Cb. apply cq_mul; assumption.
     - (* div *)
-      apply andb_true_iff in Hwf. destruct Hwf as [Wa Wb]. apply orb_false_iff in Hk. destruct Hk as [Ka Kb].
+      apply andb_true_iff in Hwf. destruct Hwf as [Wa Wb].
       cbn [cval] in Hout. destruct (bind2_not_outside _ _ _ Hout) as [Oa Ob].
-      specialize (IHa Wa Oa Ka). specialize (IHb Wb Ob Kb).
+      specialize (IHa Wa Oa). specialize (IHb Wb Ob).
       unfold good in *. cbn [meval cval exists_sub].
       destruct (meval oc a) as [[za fa]|[]|]; cbn [bind]; try contradiction; auto.
       destruct (meval oc b) as [[zb fb]|[]|]; cbn [bind]; try contradiction; auto.
@@ -296,7 +277,7 @@ Section Main.
         * rewrite Rr. unfold cre, cim. rewrite !qlit_eq by assumption. reflexivity.
         * rewrite Ri. unfold cre, cim. rewrite !qlit_eq by assumption. reflexivity.
     - (* neg *)
-      cbn [cval] in Hout. pose proof (map_not_outside _ _ Hout) as Oa. specialize (IHa Hwf Oa Hk).
+      cbn [cval] in Hout. pose proof (map_not_outside _ _ Hout) as Oa. specialize (IHa Hwf Oa).
       apply (good_unary CNeg v_neg (fun a b => CV (Qred (- a)) (Qred (- b))) a); try reflexivity; auto.
       { intros P H. cbn [exists_sub]. auto. }
       intros z Wz. destruct (v_neg_spec z Wz) as (W1 & N1 & N2). destruct (wfc_parts z Wz).
@@ -306,9 +287,8 @@ Section Main.
       + rewrite N2. unfold cim. rewrite qlit_eq by assumption. reflexivity.
     - (* pow *)
       apply andb_true_iff in Hwf. destruct Hwf as [Wa Wb].
-      apply orb_false_iff in Hk. destruct Hk as [Hk Kp]. apply orb_false_iff in Hk. destruct Hk as [Ka Kb].
       cbn [cval] in Hout. destruct (bind2_not_outside _ _ _ Hout) as [Oa Ob].
-      specialize (IHa Wa Oa Ka). specialize (IHb Wb Ob Kb).
+      specialize (IHa Wa Oa). specialize (IHb Wb Ob).
       unfold good in *. cbn [meval cval exists_sub].
       destruct (meval oc a) as [[za fa]|[]|]; cbn [bind]; try contradiction; auto.
       destruct (meval oc b) as [[zb fb]|[]|]; cbn [bind]; try contradiction; auto.
@@ -325,9 +305,7 @@ Section Main.
       { unfold qzero in F2. apply Qeq_bool_iff in F2. rewrite <- F2. unfold cim. symmetry. apply qlit_eq. assumption. }
       assert (Ry : cre zb == inject_Z z).
       { unfold cre. rewrite <- (qlit_eq (re zb)) by assumption. apply Qred_integer. assumption. }
-      assert (Hcls : forall ex, v_into_unitless_complex oc (zb, true) = Ok ex -> pow_unreduced oc za ex = false).
-      { intros ex Eex. rewrite Eex in Kp. cbn [fst] in Kp. exact Kp. }
-      pose proof (v_pow_spec oc za zb z Wza Wzb Ix Iy Ry Hcls) as P.
+      pose proof (v_pow_spec oc za zb z Wza Wzb Ix Iy Ry) as P.
       assert (Zx : qzero (qlit (re za)) = Qeq_bool (cre za) 0) by (apply qzero_qlit; assumption).
       assert (Xeq : qlit (re za) == cre za) by (apply qlit_eq; assumption).
       assert (Yeq : qlit (re zb) == inject_Z z) by (rewrite qlit_eq by assumption; exact Ry).
@@ -336,35 +314,36 @@ Section Main.
         rewrite Zx.
         destruct (Qeq_bool (cre za) 0 && (z <=? 0)%Z) eqn:U.
         * exfalso. apply andb_true_iff in U. destruct U as [U1 U2]. apply Qeq_bool_iff in U1.
-          apply Nz. split; [assumption|lia].
-        * symmetry. apply cq_of; [assumption| |].
+          apply Nz. split; [assumption|apply Z.leb_le; exact U2].
+        * change (CV (Qred (qlit (re za) ^ z)) 0) with (CV (Qred (qlit (re za) ^ z)) (Qred 0)).
+          symmetry. apply cq_of; [assumption| |].
           { rewrite Rr. rewrite Xeq. reflexivity. }
           { rewrite Ri. reflexivity. }
       + left. cbn [node_div0]. unfold cq. destruct P as [P1 P2].
         exists (qlit (re za)), (qlit (im za)), (qlit (re zb)), (qlit (im zb)).
-        split; [reflexivity|]. split; [reflexivity|]. split; [rewrite Xeq; assumption|].
+        split; [exact Ca|]. split; [exact Cb|]. split; [rewrite Xeq; assumption|].
         rewrite Yeq. change 0 with (inject_Z 0). rewrite <- Zlt_Qlt. assumption.
       + left. cbn [node_zero_pow_zero]. unfold cq. destruct P as [P1 P2].
         exists (qlit (re za)), (qlit (im za)), (qlit (re zb)), (qlit (im zb)).
-        split; [reflexivity|]. split; [reflexivity|]. split; [rewrite Xeq; assumption|].
+        split; [exact Ca|]. split; [exact Cb|]. split; [rewrite Xeq; assumption|].
         rewrite Yeq, P2. reflexivity.
       + left. cbn [node_exp_too_large]. unfold cq.
-        exists (qlit (re zb)), (qlit (im zb)). split; [reflexivity|].
-        rewrite Yeq. rewrite Qabs_Zabs. rewrite <- Zle_Qle. assumption.
+        exists (qlit (re zb)), (qlit (im zb)). split; [exact Cb|].
+        rewrite Yeq. change (Qabs (inject_Z z)) with (inject_Z (Z.abs z)). rewrite <- Zle_Qle. assumption.
     - (* real *)
-      cbn [cval] in Hout. pose proof (map_not_outside _ _ Hout) as Oa. specialize (IHa Hwf Oa Hk).
+      cbn [cval] in Hout. pose proof (map_not_outside _ _ Hout) as Oa. specialize (IHa Hwf Oa).
       apply (good_unary CReal v_real (fun a b => CV a 0) a); try reflexivity; auto.
       { intros P H. cbn [exists_sub]. auto. }
       intros z Wz. destruct (wfc_parts z Wz). unfold v_real. cbn [fst snd].
       split; [reflexivity|]. split; [apply wfc_iff; cbn [cx_of_real re im]; auto using wfr_0|]. reflexivity.
     - (* imag *)
-      cbn [cval] in Hout. pose proof (map_not_outside _ _ Hout) as Oa. specialize (IHa Hwf Oa Hk).
+      cbn [cval] in Hout. pose proof (map_not_outside _ _ Hout) as Oa. specialize (IHa Hwf Oa).
       apply (good_unary CImag v_imag (fun a b => CV b 0) a); try reflexivity; auto.
       { intros P H. cbn [exists_sub]. auto. }
       intros z Wz. destruct (wfc_parts z Wz). unfold v_imag. cbn [fst snd].
       split; [reflexivity|]. split; [apply wfc_iff; cbn [cx_of_real re im]; auto using wfr_0|]. reflexivity.
     - (* conjugate *)
-      cbn [cval] in Hout. pose proof (map_not_outside _ _ Hout) as Oa. specialize (IHa Hwf Oa Hk).
+      cbn [cval] in Hout. pose proof (map_not_outside _ _ Hout) as Oa. specialize (IHa Hwf Oa).
       apply (good_unary CConj v_conj (fun a b => CV a (Qred (- b))) a); try reflexivity; auto.
       { intros P H. cbn [exists_sub]. auto. }
       intros z Wz. destruct (wfc_parts z Wz). unfold v_conj, cx_conj. cbn [fst snd].
@@ -374,14 +353,13 @@ Section Main.
   Qed.
 End Main.
 
-(* the defect: (-8)^(6/2) leaves exact arithmetic although 6/2 = 3 *)
 Definition lit_u64 (n : N) : cexp := CLit (rat_of_u64 n).
-Definition witness_unreduced : cexp := CPow (CNeg (lit_u64 8)) (CDiv (lit_u64 6) (lit_u64 2)).
 
-Lemma exact_refuted_witness :
-  wf_lits witness_unreduced = true /\ cval witness_unreduced = CV (inject_Z (-512)) 0 /\
-  meval true witness_unreduced = Err EOther /\ known_C01 true witness_unreduced = true.
-Proof. vm_compute. auto. Qed.
+(* (-8)^(6/2) = -512 exactly (the unreduced exponent 6/2 is recognised as 3) *)
+Example unreduced_exponent_exact :
+  meval true (CPow (CNeg (lit_u64 8)) (CDiv (lit_u64 6) (lit_u64 2)))
+  = Ok (cx_of_real (mkrat Negative (Small 512) (Small 1)), true).
+Proof. vm_compute. reflexivity. Qed.
 
 (* non-vacuity: a multi-limb, non-canonical, complex example satisfies every hypothesis *)
 Definition example_expr : cexp :=
@@ -389,6 +367,6 @@ Definition example_expr : cexp :=
        (CPow (CSub (lit_u64 7) (CMul (lit_u64 2) (lit_u64 5))) (CNeg (lit_u64 3))).
 
 Example exact_hypotheses_inhabited :
-  wf_lits example_expr = true /\ cval example_expr <> COutside /\ known_C01 true example_expr = false /\
+  wf_lits example_expr = true /\ cval example_expr <> COutside /\
   exists z, meval true example_expr = Ok (z, true).
-Proof. vm_compute. split; [reflexivity|]. split; [discriminate|]. split; [reflexivity|]. eexists. reflexivity. Qed.
+Proof. vm_compute. split; [reflexivity|]. split; [discriminate|]. eexists. reflexivity. Qed.
